@@ -274,4 +274,11 @@ example : WFMsg exSplitMsg := ⟨by decide +kernel, by decide +kernel, by decide
 example : (packets exSplitMsg).toOption.map (fun pks => pks.map (fun p => (p.length, (Strict.decode p).map (·.flags)))) =
     some [(939, some 512), (933, some 0)] := by decide +kernel
 
+/-- **`TextLabels` holds of names that came from `str`s**: if every label handed to the builder is
+well-formed (1..63 bytes, part of `WFName`) and is text — the UTF-8 encoding of Unicode scalar values,
+which is what `str.encode('utf-8')` produces for every `str` without lone surrogates — then the message
+satisfies `TextLabels` (`Utf8.decode_encode`, proved in `Proofs/Utf8RoundTrip.lean`; added by the C02 owner). -/
+theorem C01_text_of_str (m : Msg) (h : ∀ n ∈ msgNamesE m, ∀ l ∈ n, WFLabel l ∧ Utf8.IsText l) : TextLabels m :=
+  names_text_of_str (msgNamesE m) (fun n hn l hl => ⟨(h n hn l hl).2, (h n hn l hl).1.2⟩)
+
 end Zc
